@@ -61,4 +61,6 @@ Definition s_nokey : node := Node 0 c_select [] [(a_columns, [colx; Node 6 c_ddl
 (* the simplest compiler: the text is everything it sees, the parameters are the bind parameters it sees *)
 Definition render_ref (ctx : atom) (v : ktree) : ktree * list N := (v, kbl T_ref v).
 Definition ctx0 : atom := A 1.
-Definition step_of (s : node) : step := mkStep ctx0 s true (fun _ => false).
+Definition step_of (s : node) : step := mkStep ctx0 s true (fun _ => false) [[]].        (* a plain execution *)
+(* an executemany with three parameter sets; the second names the bind parameter (label 4) itself *)
+Definition many_of (s : node) : step := mkStep ctx0 s true (fun _ => false) [[]; [(4, A 55)]; []].
